@@ -187,21 +187,22 @@ impl Family for Schedules {
     fn run(&self, case: &Value, ctx: &mut Ctx) -> Report {
         let name = case["program"].as_str().unwrap();
         let prog = build(name);
-        explore_program(name, &prog, ctx, 20_000)
+        {
+            let (cap, bounds): (u64, Vec<Option<u32>>) = if ctx.tier == Tier::Quick { (20_000, vec![Some(2)]) } else { (50_000, vec![Some(2), Some(3), Some(4), Some(6), Some(8), None]) };
+            explore_program(name, &prog, ctx, cap, bounds)
+        }
     }
 }
 
 /// Explore every schedule of one program on both sides (emitted Go under the Go interpreter, reference
 /// semantics) and compare the sets of terminal observations. Shared by `schedules` and `goforms`.
-pub fn explore_program(name: &str, prog: &Program, ctx: &mut Ctx, quick_cap: u64) -> Report {
+pub fn explore_program(name: &str, prog: &Program, ctx: &mut Ctx, cap: u64, bounds: Vec<Option<u32>>) -> Report {
     {
         let mut rep = Report::default();
         let text = print::print_main(prog);
         // quick: preemption bound 2. thorough: the bound is iterated 2, 3, 4, ... and finally dropped; the
         // largest bound whose exploration of both sides completes under the cap is the one that decides
         // (a capped exploration never does), and it is reported.
-        let cap: u64 = if ctx.tier == Tier::Quick { quick_cap } else { 50_000 };
-        let bounds: Vec<Option<u32>> = if ctx.tier == Tier::Quick { vec![Some(2)] } else { vec![Some(2), Some(3), Some(4), Some(6), Some(8), None] };
         let fuel = 200_000;
         let path = ctx.scratch.single_path();
         let comp = match compile_at(&path, &text) {
